@@ -51,7 +51,48 @@ pub fn mk(st: &str, e: &Value, hs: &Hs) -> Box<dyn Aml> {
         "qos" => Box::new(mk_qos(e)),
         "gas" => Box::new(mk_gas(get(e, "a"))),
         "gedata" => Box::new(mk_gedata(e)),
+        "gas_pci" => {
+            let a = get(e, "a");
+            use acpi_tables::gas::{AccessSize, GAS};
+            let access = match str_of(get(a, "access")) {
+                "Undefined" => AccessSize::Undefined,
+                "ByteAccess" => AccessSize::ByteAccess,
+                "WordAccess" => AccessSize::WordAccess,
+                "DwordAccess" => AccessSize::DwordAccess,
+                "QwordAccess" => AccessSize::QwordAccess,
+                x => panic!("access {x}"),
+            };
+            Box::new(GAS::new_pci_config(u8_of(get(a, "width")), access, u8_of(get(a, "device")), u8_of(get(a, "function")), u16_of(get(a, "register"))))
+        }
+        "gaddr" => {
+            // sdt::GenericAddress has a raw in-memory form only
+            use acpi_tables::sdt::GenericAddress as GA;
+            use zerocopy::IntoBytes;
+            let a = get(e, "a");
+            let io = str_of(get(a, "kind")) == "io";
+            let size = u64_of(get(a, "size"));
+            let g = match (io, size) {
+                (true, 1) => GA::io_port_address::<u8>(u16_of(get(a, "addr"))),
+                (true, 2) => GA::io_port_address::<u16>(u16_of(get(a, "addr"))),
+                (true, 4) => GA::io_port_address::<u32>(u16_of(get(a, "addr"))),
+                (true, 8) => GA::io_port_address::<u64>(u16_of(get(a, "addr"))),
+                (false, 1) => GA::mmio_address::<u8>(u64_of(get(a, "addr"))),
+                (false, 2) => GA::mmio_address::<u16>(u64_of(get(a, "addr"))),
+                (false, 4) => GA::mmio_address::<u32>(u64_of(get(a, "addr"))),
+                (false, 8) => GA::mmio_address::<u64>(u64_of(get(a, "addr"))),
+                _ => panic!("gaddr size"),
+            };
+            Box::new(Raw(g.as_bytes().to_vec()))
+        }
         x => panic!("unknown structure {x}"),
+    }
+}
+
+/// Raw in-memory bytes of a structure that has no serialiser of its own.
+struct Raw(Vec<u8>);
+impl Aml for Raw {
+    fn to_aml_bytes(&self, sink: &mut dyn acpi_tables::AmlSink) {
+        sink.vec(&self.0)
     }
 }
 
